@@ -39,7 +39,9 @@ WOps(n) == {Hd(n, "/posts/abc", G, ""), Rm(n, "/posts/abc", <<>>), Hd(n, "/posts
             \* regexp rules are compiled at registration time (and by non-strict URL building, which takes no lock)
             Hd(n, "/r/{id:\\d+}", G, ""), Rm(n, "/r/{id:\\d+}", <<>>), Hd(n, "/r/{w:[a-z]+}x", G, ""),
             \* method sets nobody in the process has used before (the process-wide method-set memo grows while readers read it)
-            Hd(n, "/posts/abc", <<"PUT">>, ""), Hd(n, "/s/f", <<"DELETE", "PATCH">>, ""), Hd(n, "/u/{id}/y", <<"PUT", "CONNECT">>, "")}
+            Hd(n, "/posts/abc", <<"PUT">>, ""), Hd(n, "/s/f", <<"DELETE", "PATCH">>, ""), Hd(n, "/u/{id}/y", <<"PUT", "CONNECT">>, ""),
+            \* ... and partial removals that leave a method set no registration ever passed through
+            Rm(n, "/s/f", <<"PATCH">>), Rm(n, "/u/{id}/y", <<"PUT">>)}
 ROps(n) == {Sv(n, "GET", "/posts/author", "/posts/author", <<>>), Sv(n, "GET", "/posts/abc", "/posts/abc", <<>>), Sv(n, "POST", "/posts/author", "/posts/author", <<>>),
             Sv(n, "OPTIONS", "/posts/author", "/posts/author", <<>>), Sv(n, "GET", "/u/7q/x", "/u/{id}/x", [id |-> "7q"]), Sv(n, "GET", "/u/7q/y", "/u/{id}/y", [id |-> "7q"]),
             Sv(n, "GET", "/s/a", "/s/a", <<>>), Sv(n, "GET", "/s/7q", "/s/{id}", [id |-> "7q"]), Sv(n, "GET", "/s/f", "/s/f", <<>>), Sv(n, "OPTIONS", "*", "", <<>>),
@@ -53,13 +55,21 @@ Roles == CASE Mode = "c06"      -> <<[k |-> "w", n |-> "r1"], [k |-> "w", n |-> 
            [] Mode = "c07inst"  -> <<[k |-> "own", n |-> "r1"], [k |-> "own", n |-> "r2"], [k |-> "hosts", n |-> "h1"], [k |-> "hosts", n |-> "h2"]>>
            [] Mode = "c07quiet" -> <<[k |-> "r", n |-> "r1"], [k |-> "r", n |-> "r1"], [k |-> "r", n |-> "r1"], [k |-> "r", n |-> "r1"]>>
            [] Mode = "c07seq"   -> <<[k |-> "seq", n |-> ""]>>
+           [] Mode = "c07fresh" -> <<[k |-> "fresh", n |-> "r1"]>>
            [] Mode = "c07group" -> <<[k |-> "grp", n |-> "g1"], [k |-> "grp", n |-> "g1"], [k |-> "grp", n |-> "g1"], [k |-> "r", n |-> "r1"]>>
 QOps(n) == ROps(n) \cup {SvF(n, "GET", "/posts/author", "/posts/author", <<>>, [x \in {"h:route"} |-> "error"]),
                         SvF(n, "GET", "/nope/zz", "", <<>>, [x \in {"h:404"} |-> "string"]),
                         SvH(n, "OPTIONS", "/posts/author", "/posts/author", <<>>, [Origin |-> "https://o1.example"] @@ ("Access-Control-Request-Method" :> "GET")
                                                                                   @@ ("Access-Control-Request-Headers" :> "content-type, x-a")),
                         SvH(n, "GET", "/s/a", "/s/a", <<>>, [Origin |-> "https://o1.example"])}
+\* "fresh": EVERY sequence of K calls that change method sets several at a time, each run in a process of its own (nothing in
+\* the process has ever built a method set before), followed by the reads that show the sets
+FOps(n) == {Hd(n, "/s/f", <<"DELETE", "PATCH">>, ""), Hd(n, "/posts/abc", <<"PUT">>, ""), Hd(n, "/u/{id}/y", <<"PUT", "CONNECT">>, ""), Hd(n, "/s/f", G, ""),
+            Rm(n, "/s/f", <<"PATCH">>), Rm(n, "/u/{id}/y", <<"PUT">>), Rm(n, "/s/a", <<>>), Cl(n, "/s/f")}
+Suffix(role) == IF role.k = "fresh" THEN <<Sv(role.n, "OPTIONS", "*", "", <<>>), Rt(role.n), Sv(role.n, "OPTIONS", "/s/f", "/s/f", <<>>), Sv(role.n, "PATCH", "/u/7q/y", "/u/{id}/y", [id |-> "7q"])>>
+                ELSE <<>>
 OpsFor(role) == CASE role.k = "w" -> WOps(role.n)
+                  [] role.k = "fresh" -> FOps(role.n)
                   [] role.k = "r" -> IF Mode = "c07quiet" THEN QOps(role.n) ELSE ROps(role.n)
                   [] role.k = "own" -> WOps(role.n) \cup ROps(role.n)
                   [] role.k = "hosts" -> HOpsC(role.n)
@@ -73,7 +83,7 @@ Preflight(n) == SvH(n, "OPTIONS", "/posts/author", "/posts/author", <<>>, [Origi
                                                                            @@ ("Access-Control-Request-Headers" :> "content-type, x-a"))
 Prefix(role) == IF role.k = "own" THEN Setup(role.n) ELSE IF role.k = "hosts" THEN <<New(role.n)>>
                 ELSE IF Mode = "c07quiet" THEN <<Preflight(role.n)>> ELSE <<>>
-SetupOps == CASE Mode \in {"c06", "c07quiet"} -> Setup("r1")
+SetupOps == CASE Mode \in {"c06", "c07quiet", "c07fresh"} -> Setup("r1")
               [] Mode = "c07group" -> <<New("g1")>> \o Setup("r1")
               [] Mode = "c07seq" -> <<New("r1"), New("r3")>>
               [] OTHER -> <<>>
@@ -91,7 +101,7 @@ Spec == Init /\ [][Next]_vars
 
 Full == pos > Len(Roles)
 CaseOf(lock, procs) == [fam |-> "conc", cfg |-> CfgC(lock), n |-> Iter, stress |-> Stress, procs |-> procs, ops |-> SetupOps,
-                        progs |-> [i \in 1..Len(Roles) |-> Prefix(Roles[i]) \o progs[i]]]
+                        progs |-> [i \in 1..Len(Roles) |-> Prefix(Roles[i]) \o progs[i] \o Suffix(Roles[i])]]
 Emit == Full => /\ PrintT("CASE " \o ToJson(CaseOf(TRUE, 4)))
                 /\ (Mode # "c06" => PrintT("CASE " \o ToJson(CaseOf(FALSE, 8))))
 =============================================================================
